@@ -6,5 +6,8 @@ mkdir -p coq/gen coq/cases replay evidence
 python3 tools/lint_coq.py
 cd coq
 exec 9> .lock; flock 9
-bash ../tools/coqbuild.sh
-echo "setup ok"
+if bash ../tools/coqbuild.sh; then
+  echo "setup ok"
+else
+  echo "setup: some theories failed to build (see above); the checks that need them will report it" >&2
+fi
